@@ -132,7 +132,12 @@ fn decode_loop(
                 total_bytes_read += bytes_read;
                 // The output is already reserved to the size of the input. We slowly resize. Here,
                 // we're expecting that 10% of bytes will double in size when converting to UTF-8.
-                output.reserve(input.len() / 10);
+                // Always grow by at least what the decoder may need for its next step: with a
+                // short input `input.len() / 10` is 0 and we would retry forever.
+                let needed = decoder
+                    .max_utf8_buffer_length_without_replacement(input.len() - total_bytes_read)
+                    .unwrap_or(input.len());
+                output.reserve((input.len() / 10).max(needed));
             }
             (DecoderResult::Malformed(malformed_len, bytes_after_malformed), bytes_read) => {
                 total_bytes_read += bytes_read;
